@@ -1211,7 +1211,7 @@ pub fn run_conc(input: &Value, log: &mut Vec<Value>) -> Value {
                 break; // async path: deterministic after settling; or every walk is inside
             }
             let idle = last_change.elapsed().as_millis();
-            if (seen >= want_min && idle > 400) || t0.elapsed().as_millis() > 10_000 {
+            if (seen >= want_min && idle > 200) || t0.elapsed().as_millis() > 10_000 {
                 break;
             }
             std::thread::sleep(std::time::Duration::from_millis(2));
